@@ -13,7 +13,7 @@ var c08Paths = []string{"print", "assign", "concat", "compare", "arg", "return",
 
 // c08Program builds the program for one (origin, path) with value v. ok=false
 // when the combination is not defined (e.g. a raw literal cannot hold a backquote).
-func c08Program(origin, path, v string) (bc BashCase, ok bool) {
+func c08Program(origin, path, v, place string) (bc BashCase, ok bool) {
 	stmts := []Stmt{}
 	pre := map[string]string{}
 	stdin := ""
@@ -91,6 +91,21 @@ func c08Program(origin, path, v string) (bc BashCase, ok bool) {
 	default:
 		panic("c08 path")
 	}
+	if place != "top" {
+		// the same origin and data path inside a function body ("func"), or two blocks deep in it ("nested")
+		funcs, body := []Stmt{}, []Stmt{}
+		for _, st := range stmts {
+			if _, isFn := st.(FuncDecl); isFn {
+				funcs = append(funcs, st)
+			} else {
+				body = append(body, st)
+			}
+		}
+		if place == "nested" {
+			body = []Stmt{For{Kind: ForThree, Init: def("kk", il(0)), Cond: cmp("<", vr("kk"), il(1)), Post: IncDec{"kk", true}, Body: []Stmt{ifs(cmp("==", vr("kk"), il(0)), body...)}}}
+		}
+		stmts = append(funcs, fn("run", nil, nil, body...), callS("run"), pr(sl("done")))
+	}
 	bc = BashCase{Prog: SingleFile(stmts), Stdin: stdin, PreFiles: pre, CheckFS: true}
 	if origin == "cmd" {
 		bc.AppHook = func(stages [][]string, fs map[string][]byte) (string, int) {
@@ -147,17 +162,29 @@ var c08Payloads = map[string]string{
 }
 
 func checkC08(c *Check) {
-	c.Rule = "table: origin (literal interpreted/raw, file via read, stdin via input, command output via @cat) x data path (14: print, assign, concat, compare, argument, return, slice store, slice literal, slice load via copy, range over string, range over slice, subscript, len, write) x character (95 printable ASCII, newline, tab) x position (first, middle, last, only), one program per cell, plus a payload list (command substitution, backticks, option-like words, globs, redirections, history, blanks) on every path x origin and random strings (thorough); each program runs under real bash in a sandbox; oracle = reference stdout/exit, empty stderr and the complete sandbox file system (any file the reference does not predict, e.g. a CANARY created by executed data, is a violation). Non-trivial = every cell; distinct = SHA-256 of source + stdin + files"
+	c.Rule = "table: origin (literal interpreted/raw, file via read, stdin via input, command output via @cat) x data path (14: print, assign, concat, compare, argument, return, slice store, slice literal, slice load via copy, range over string, range over slice, subscript, len, write) x character (95 printable ASCII, newline, tab) x position (first, middle, last, only) x place (top level, function body, two blocks deep inside a function), one program per cell, plus a payload list (command substitution, backticks, option-like words, globs, redirections, history, blanks) on every path x origin and random strings (thorough); each program runs under real bash in a sandbox; oracle = reference stdout/exit, empty stderr and the complete sandbox file system (any file the reference does not predict, e.g. a CANARY created by executed data, is a violation). Non-trivial = every cell; distinct = SHA-256 of source + stdin + files"
 	c.Assumptions = []string{"reference interpreter treats strings as byte vectors", "run-time origins skip values ending in a newline (the origin APIs drop it, C17/C18)", "Batch target not claimed"}
 	runProbes(c, bashProbeJudge)
 	cases := []BashCase{}
+	r2 := rand.New(rand.NewSource(c.Seed*8000009 + 12))
 	add := func(key, origin, path, v string) {
-		bc, ok := c08Program(origin, path, v)
-		if !ok {
-			return
+		for _, place := range []string{"top", "func", "nested"} {
+			k := key
+			if place != "top" {
+				// quick tier: payloads at every place, table cells at a seed-selected eighth
+				if !c.Thorough() && !strings.Contains(key, "/payload/") && r2.Intn(8) != 0 {
+					continue
+				}
+				parts := strings.SplitN(key, "/", 3)
+				k = parts[0] + "/" + parts[1] + "@" + place + "/" + parts[2]
+			}
+			bc, ok := c08Program(origin, path, v, place)
+			if !ok {
+				return
+			}
+			bc.Key = k
+			cases = append(cases, bc)
 		}
-		bc.Key = key
-		cases = append(cases, bc)
 	}
 	r := rand.New(rand.NewSource(c.Seed*8000009 + 11))
 	chars := []byte{}
